@@ -225,6 +225,9 @@ func main() {
 		for i := 0; i < 1+*n/300; i++ {
 			statCaseWrap(rnd, key, out)
 		}
+		for i := 0; i < 1+*n/3000; i++ {
+			statCaseLong(rnd, key, out)
+		}
 	case "explore":
 		// explore -in <history>: the history's `E conc` line (its schedule, if any, is ignored) is executed under every
 		// lock-granularity interleaving within the preemption bound; one history is written per distinct outcome
